@@ -556,6 +556,15 @@ def load_known_findings() -> List[dict]:
     return [f for f in doc.get("findings", []) if f.get("status") == "open"]
 
 
+def _dig(d: Any, key: str) -> Any:
+    """d["a"]["b"] for key "a.b" (None when a level is missing)."""
+    for part in key.split("."):
+        if not isinstance(d, dict):
+            return None
+        d = d.get(part)
+    return d
+
+
 def match_known(prop: str, v: dict, findings: List[dict]) -> Optional[dict]:
     """A finding matches when property and oracle agree, its signature equals the
     violation's and every key of its ``where`` clause equals the value found at that
@@ -571,7 +580,7 @@ def match_known(prop: str, v: dict, findings: List[dict]) -> Optional[dict]:
         where = f.get("where", {})
         if not isinstance(d, dict):
             d = {}
-        if all(d.get(k) == want for k, want in where.items()):
+        if all(_dig(d, k) == want for k, want in where.items()):
             return f
     return None
 
